@@ -39,7 +39,7 @@ REQUIRED = {"ratios_checked": 3000, "direct_ratio_crosschecks": 100,
             "replacement_point_checked": 500,
             "replacement_after_soc_checked": 5}
 MIN_NONTRIVIAL = {"quick": 100, "thorough": 800}
-PLAN = [("driven", 240, 3600), ("real", 200, 2400)]
+PLAN = [("driven", 720, 5000), ("real", 200, 2400)]
 EPS = np.finfo(float).eps
 
 
